@@ -557,6 +557,32 @@ def check_qh(ctx, rep):
                             rep.violation("QH", x, f, what, "the setting has homogeneity degree %s in (weights, penalties): the stopping rule "
                                           "changes when all weights are scaled" % d, key="%s|solver setting depends on the weight scale" % f.short)
     rep.extra["qh_sites"] = ncmp
+    # the assembled system is handed to the solver as built: any later arithmetic on the local Eigen matrix / right-hand side must
+    # itself be homogeneous of degree 1 (a constant added to the diagonal is an absolute spring)
+    for f in prog.funcs.values():
+        if f.cls != mc or f.body is None:
+            continue
+        deg = degrees_for(ctx, f)
+        eig = {}
+        for x in walk(f.body):
+            if x.get("kind") == "VarDecl" and "Eigen::" in (desugared(x) or qt(x) or "") and ("SparseMatrix" in (desugared(x) or qt(x)) or "Matrix<" in (desugared(x) or qt(x))):
+                eig[x.get("id")] = x.get("name")
+        for x in walk(f.body):
+            if x.get("kind") in ("CompoundAssignOperator", "BinaryOperator") and x.get("opcode") in ("+=", "-=", "=", "*=", "/="):
+                l, r = children(x)
+                lc = canon(l)
+                roots = [t for t in subterms(lc) if t[0] == "var" and t[1] in eig]
+                if not roots or lc[0] == "var":
+                    continue
+                ncmp += 1
+                d = deg.degree(canon(r, refs=False))
+                what = "%s: %s %s %s" % (f.short, pretty(lc)[:40], x.get("opcode"), pretty(canon(r))[:40])
+                okd = (d == 1 or d is None) if x.get("opcode") in ("+=", "-=", "=") else (d in (0, None))
+                if okd:
+                    rep.holds("QH", x, f, what, "the assembled system is modified homogeneously")
+                else:
+                    rep.violation("QH", x, f, what, "an entry of the assembled system is changed by a quantity of homogeneity degree %s: the solved "
+                                  "system no longer scales with the weights" % d, key="%s|assembled system modified with degree %s" % (f.short, d))
 
 
 # ---- PV --------------------------------------------------------------------------
